@@ -21,6 +21,9 @@ import Rooc.Proofs.RefLemmas
 import Rooc.Proofs.RatInst
 import Rooc.Proofs.BuilderHistLemmas
 import Rooc.Proofs.ComposeSolver
+import Rooc.Proofs.TextTwin
+import Rooc.Proofs.Compose
+import Rooc.Props.C03
 namespace Rooc.Props.C16
 open Rooc Rooc.Exp Rooc.Builder
 
@@ -391,6 +394,104 @@ theorem solution_varValue (b : BSolution (Ext K)) (h : Nat) :
 
 end readback
 
+/-! ### 9. builder door ≍ text door
+
+`TextTwin bm tm` (`Rooc/Proofs/TextTwin.lean`): the two source models have the same direction, objective, constraints,
+declared names and types, and differ at most in the usage counts — the builder marks every declaration
+(`intoModel_marks_all`), the text front end counts occurrences, so a declaration that occurs nowhere has count 0 there and
+is dropped by the compiler.  This is the relation `./check C16` observes between `ModelBuilder::into_model` and
+`RoocParser::parse_and_transform` of the printed text (`same-tree`: equal with the usage column stripped).
+
+Hypotheses on the TEXT model, all established by the text front end: `Closed tm` (every occurring variable is a marked
+declaration: the transformer's usage counting), distinct declared names (`IndexMap` keys), and every never-used
+declaration has a non-empty domain (`to_variable_type` rejects `IntegerRange(a, b)` with `a > b`; these are the `nodup` /
+`inhabited` fields of `LinP.DeclOK`).  `builder_text_counterexample` shows the last one cannot be dropped. -/
+section twin
+variable {K : Type} [Field K] [LinearOrder K] [IsStrictOrderedRing K] [FloorRing K]
+open Rooc.Sem Rooc.Ref Rooc.Props.C03
+
+/-- SAME FEASIBLE ASSIGNMENTS of the used variables, same objective: an assignment satisfies the builder's model iff it
+satisfies the text model and puts the never-used declarations inside their domains; every assignment satisfying the text
+model can be changed on the never-used declarations only so that it satisfies the builder's, with the same objective. -/
+theorem builder_text_feasible {bm tm : Model (Ext K)} (h : TextTwin bm tm) (hb : ∀ d ∈ bm.domain, d.usage > 0)
+    (hc : Closed tm = true) (hnd : (tm.domain.map (·.name)).Nodup)
+    (hne : ∀ d ∈ tm.domain, d.usage = 0 → ∃ x : K, inDomain x d.ty = true) :
+    (∀ ρ : String → K, srcFeasible bm ρ = true ↔
+      (srcFeasible tm ρ = true ∧ ∀ d ∈ tm.domain, d.usage = 0 → inDomain (ρ d.name) d.ty = true)) ∧
+    (∀ ρ : String → K, srcFeasible tm ρ = true → ∃ ρ' : String → K, srcFeasible bm ρ' = true ∧
+      eval ρ' bm.objective = eval ρ tm.objective ∧ ∀ d ∈ tm.domain, d.usage > 0 → ρ' d.name = ρ d.name) :=
+  ⟨srcFeasible_twin h hb, fun _ hf => twin_extend h hb hc hnd hne hf⟩
+
+/-- SAME VERDICT AND OPTIMAL VALUE: on enumerable declarations the reference interpreter answers the two models alike —
+`infeasible` for both or neither, `optimal` with the SAME value, a `satisfy` witness for both or neither.  (Through
+`Props.C03.c03_default_solver_logic_partial` this is the verdict and value each door's pipeline returns.) -/
+theorem builder_text_same_verdict {bm tm : Model (Ext K)} (h : TextTwin bm tm) (hb : ∀ d ∈ bm.domain, d.usage > 0)
+    (hc : Closed tm = true) (hnd : (tm.domain.map (·.name)).Nodup)
+    (hne : ∀ d ∈ tm.domain, d.usage = 0 → ∃ x : K, inDomain x d.ty = true)
+    {asgB asgT : List (List (String × K))} (haB : assignments bm.domain = some asgB)
+    (haT : assignments tm.domain = some asgT) :
+    (refSolve bm = .infeasible ↔ refSolve tm = .infeasible) ∧
+    (∀ v, (∃ w, refSolve bm = .optimal v w) ↔ (∃ w, refSolve tm = .optimal v w)) ∧
+    ((∃ w, refSolve bm = .feasibleAny w) ↔ (∃ w, refSolve tm = .feasibleAny w)) := by
+  have hcB : Closed bm = true := twin_closed h hb hc
+  have toT : ∀ ρ : String → K, srcFeasible bm ρ = true → srcFeasible tm ρ = true :=
+    fun ρ hf => ((srcFeasible_twin h hb ρ).1 hf).1
+  have toB := fun (ρ : String → K) (hf : srcFeasible tm ρ = true) => twin_extend h hb hc hnd hne hf
+  refine ⟨?_, ?_, ?_⟩
+  · rw [refSolve_infeasible_iff haB hcB, refSolve_infeasible_iff haT hc]
+    constructor
+    · intro hall ρ
+      cases hf : srcFeasible tm ρ with
+      | false => rfl
+      | true => obtain ⟨ρ', hf', _⟩ := toB ρ hf; rw [hall ρ'] at hf'; cases hf'
+    · intro hall ρ
+      cases hf : srcFeasible bm ρ with
+      | false => rfl
+      | true => have := toT ρ hf; rw [hall ρ] at this; cases this
+  · intro v
+    constructor
+    · rintro ⟨w, hr⟩
+      obtain ⟨hne', hfw, hvw, hbest⟩ := refSolve_optimal_spec hr
+      have hdef : ∀ ρ' : String → K, srcFeasible tm ρ' = true → (eval ρ' tm.objective).isSome = true := by
+        intro ρ' hf'
+        obtain ⟨ρ'', hf'', hobj, _⟩ := toB ρ' hf'
+        rw [← hobj]; exact refSolve_optimal_objective_defined hr hcB hf''
+      obtain ⟨v', w', hr'⟩ := refSolve_optimal_complete haT hc (by rw [h.optType]; exact hne') (toT _ hfw) hdef
+      obtain ⟨_, hfw', hvw', hbest'⟩ := refSolve_optimal_spec hr'
+      have h1 : better bm.optType v' v = false := by
+        obtain ⟨ρ'', hf'', hobj, _⟩ := toB _ hfw'
+        exact hbest hcB ρ'' hf'' v' (by rw [hobj, hvw'])
+      have h2 : better bm.optType v v' = false := by
+        have := hbest' hc (lookup w) (toT _ hfw) v (by rw [h.objective]; exact hvw)
+        rwa [h.optType] at this
+      have : v' = v := Rooc.Compose.eq_of_not_better hne' h1 h2
+      exact ⟨w', this ▸ hr'⟩
+    · rintro ⟨w, hr⟩
+      obtain ⟨hne', hfw, hvw, hbest⟩ := refSolve_optimal_spec hr
+      obtain ⟨ρB, hfB, hobjB, _⟩ := toB _ hfw
+      have hdef : ∀ ρ' : String → K, srcFeasible bm ρ' = true → (eval ρ' bm.objective).isSome = true := by
+        intro ρ' hf'
+        rw [← h.objective]; exact refSolve_optimal_objective_defined hr hc (toT ρ' hf')
+      obtain ⟨v', w', hr'⟩ := refSolve_optimal_complete haB hcB (by rw [← h.optType]; exact hne') hfB hdef
+      obtain ⟨_, hfw', hvw', hbest'⟩ := refSolve_optimal_spec hr'
+      have h1 : better tm.optType v' v = false :=
+        hbest hc (lookup w') (toT _ hfw') v' (by rw [h.objective]; exact hvw')
+      have h2 : better tm.optType v v' = false := by
+        have := hbest' hcB ρB hfB v (by rw [hobjB, hvw])
+        rwa [← h.optType] at this
+      have : v' = v := Rooc.Compose.eq_of_not_better hne' h1 h2
+      exact ⟨w', this ▸ hr'⟩
+  · constructor
+    · rintro ⟨w, hr⟩
+      obtain ⟨hs, hf⟩ := refSolve_feasibleAny_spec hr
+      exact refSolve_feasibleAny_complete haT hc (by rw [h.optType]; exact hs) (toT _ hf)
+    · rintro ⟨w, hr⟩
+      obtain ⟨hs, hf⟩ := refSolve_feasibleAny_spec hr
+      obtain ⟨ρB, hfB, _⟩ := toB _ hf
+      exact refSolve_feasibleAny_complete haB hcB (by rw [← h.optType]; exact hs) hfB
+
+end twin
+
 /-! ### Non-vacuity: a concrete builder model at `K = ℚ`
 
 `x ∈ {0..5}` (index 0), `y` Boolean (index 1), `z` Boolean declared but never used (index 2);
@@ -457,6 +558,97 @@ example : ∃ m, intoModel { exB with objective := none } = some m ∧ m.optType
     m.objective = .num (.fin 0) := by
   refine ⟨{ exM with optType := .satisfy, objective := .num (.fin 0) }, ?_, rfl, rfl⟩
   simp [intoModel, toConstraint, exB, exM, toExp, lin, lin', v0, v1, i0, i1]
+
+/-! #### a call history, replayed -/
+
+private noncomputable def exOps : List (Op (Ext ℚ)) :=
+  [.addVar "x" (.int 0 5), .addVars "y" 2 .bool, .addVar "y_1" .bool, .maximize (.var "0"),
+   .with_ (bcNew (.bin .add (.var "0") (.bin .mul (.num (.fin 2)) (.var "1"))) .le (.num (.fin 6)) "c"),
+   .satisfy, .with_ (bcAssert (.or [.var "1", .var "2"]) "a"),
+   .maximize (.bin .add (.var "0") (.bin .mul (.num (.fin 2)) (.var "1")))]
+
+/-- outcomes: handles 0, then the family `y_0, y_1` (handles 1, 2), then the duplicate-name panic of `add_var "y_1"`. -/
+example : (run BState.new exOps).2 =
+    [.handles [0], .handles [1, 2], .duplicate "y_1", .unit, .unit, .unit, .unit, .unit] := by decide +kernel
+
+example : (run BState.new exOps).1.variableNames = ["x", "y_0", "y_1"] := by decide +kernel
+
+/-- a family that collides half way leaves its earlier members declared. -/
+example : (run (BState.new : BState (Ext ℚ)) [.addVar "v_1" .bool, .addVars "v" 3 .bool]).2 =
+      [.handles [0], .duplicate "v_1"] ∧
+    (run (BState.new : BState (Ext ℚ)) [.addVar "v_1" .bool, .addVars "v" 3 .bool]).1.variableNames = ["v_1", "v_0"] := by
+  decide +kernel
+
+/-- the same constraints and last objective in another call order (`with_all`, objective first): same model
+(`history_order_independent` applies). -/
+example : (run BState.new exOps).1.intoModel =
+    (run BState.new ([.addVar "x" (.int 0 5), .addVars "y" 2 .bool, .addVar "y_1" .bool,
+      .maximize (.bin .add (.var "0") (.bin .mul (.num (.fin 2)) (.var "1"))),
+      .withAll [bcNew (.bin .add (.var "0") (.bin .mul (.num (.fin 2)) (.var "1"))) .le (.num (.fin 6)) "c",
+                bcAssert (.or [.var "1", .var "2"]) "a"]] : List (Op (Ext ℚ)))).1.intoModel :=
+  history_order_independent _ _ _ (by unfold exOps; rfl) (by simp [exOps, consOf]) (by simp [exOps, lastObj, objOfOp])
+
+/-- `solution_eval_eq_semEval` applies: a solution `x = 4, y_0 = 1` (no value for `y_1`: it reads as 0). -/
+example : BSolution.eval
+      { solution := SolverWrap.lpSolutionNew [("x", .int 4), ("y_0", .bool true)] (.fin 6) [], variableNames := ["x", "y_0", "y_1"] }
+      (.bin .add (.var "0") (.bin .mul (.num (.fin 2)) (.var "1")) : Exp (Ext ℚ)) = .fin 6 := by
+  refine solution_eval_eq_semEval _ ?_ (e' := .bin .add (.var "x") (.bin .mul (.num (.fin 2)) (.var "y_0"))) ?_ ?_
+  · intro n val hv
+    have hcases : val = .int 4 ∨ val = .bool true := by
+      simp only [SolverWrap.Solution.valueOf, SolverWrap.lpSolutionNew, SolverWrap.buildAssignmentMap, SolverWrap.imGet,
+        List.foldl_cons, List.foldl_nil, List.any_nil, List.nil_append, List.any_cons, Bool.false_eq_true, if_false,
+        Bool.or_false] at hv
+      have hne : (("x" : String) == "y_0") = false := by decide
+      simp only [hne, Bool.false_eq_true, if_false, List.cons_append, List.nil_append, List.find?_cons] at hv
+      by_cases h1 : (("x" : String) == n) = true
+      · simp only [h1] at hv; left; simpa using hv.symm
+      · have h1' : (("x" : String) == n) = false := by simpa using h1
+        simp only [h1'] at hv
+        by_cases h2 : (("y_0" : String) == n) = true
+        · simp only [h2] at hv; right; simpa using hv.symm
+        · have h2' : (("y_0" : String) == n) = false := by simpa using h2
+          simp [h2'] at hv
+    rcases hcases with rfl | rfl
+    · exact ⟨4, by simp [SolverWrap.Val.toNum]⟩
+    · exact ⟨1, by simp [SolverWrap.Val.toNum]⟩
+  · simp [toExp, i0, i1]
+  · simp [Sem.eval, Sem.binVal, Rooc.Compose.assignmentOf, SolverWrap.Solution.valueOf, SolverWrap.lpSolutionNew,
+      SolverWrap.buildAssignmentMap, SolverWrap.imGet, SolverWrap.Val.toNum, StdSem.toK]
+    norm_num
+
+/-! #### builder ≍ text -/
+
+private def twinB : Model (Ext ℚ) :=
+  { optType := .max, objective := .var "x", constraints := [],
+    domain := [{ name := "x", ty := .bool, usage := 1 }, { name := "u", ty := .int 2 3, usage := 1 }] }
+private def twinT : Model (Ext ℚ) := { twinB with domain := [{ name := "x", ty := .bool, usage := 1 }, { name := "u", ty := .int 2 3, usage := 0 }] }
+
+/-- `builder_text_same_verdict` applies (the never-used `u` has the non-empty domain `{2,3}`): both doors' models get
+`optimal 1`. -/
+example : (∃ w, Ref.refSolve twinB = .optimal 1 w) ↔ (∃ w, Ref.refSolve twinT = .optimal 1 w) :=
+  (builder_text_same_verdict (bm := twinB) (tm := twinT) ⟨rfl, rfl, rfl, rfl⟩ (by decide) (by decide) (by decide)
+    (by
+      intro d hd h0
+      simp only [twinT, List.mem_cons, List.mem_nil_iff, or_false] at hd
+      rcases hd with rfl | rfl
+      · cases h0
+      · exact ⟨2, by rw [fieldExact_rat]; decide +kernel⟩)
+    (asgB := [[("x", 0), ("u", 2)], [("x", 1), ("u", 2)], [("x", 0), ("u", 3)], [("x", 1), ("u", 3)]])
+    (asgT := [[("x", 0)], [("x", 1)]])
+    (by rw [fieldExact_rat]; decide +kernel) (by rw [fieldExact_rat]; decide +kernel)).2.1 1
+
+/-- the hypothesis "never-used declarations are inhabited" cannot be dropped: with `u as IntegerRange(3, 2)` the builder's
+model is infeasible (the builder keeps `u` with bounds `3 ≤ u ≤ 2`) while the text model, which drops `u`, has optimum 1.
+(The text front end never produces this twin: `to_variable_type` rejects `IntegerRange(3, 2)`; through the builder's public
+`VariableType::IntegerRange(3, 2)` it can be declared.) -/
+theorem builder_text_counterexample :
+    ∃ bm tm : Model (Ext ℚ), TextTwin bm tm ∧ (∀ d ∈ bm.domain, d.usage > 0) ∧ Ref.Closed tm = true ∧
+      (tm.domain.map (·.name)).Nodup ∧ Ref.refSolve bm = .infeasible ∧ ∃ w, Ref.refSolve tm = .optimal 1 w := by
+  refine ⟨{ twinB with domain := [{ name := "x", ty := .bool, usage := 1 }, { name := "u", ty := .int 3 2, usage := 1 }] },
+    { twinB with domain := [{ name := "x", ty := .bool, usage := 1 }, { name := "u", ty := .int 3 2, usage := 0 }] },
+    ⟨rfl, rfl, rfl, rfl⟩, by decide, by decide, by decide, ?_, [("x", 1)], ?_⟩
+  · rw [fieldExact_rat]; decide +kernel
+  · rw [fieldExact_rat]; decide +kernel
 
 end examples
 
